@@ -1,8 +1,97 @@
-(* drv_timed.ml -- model-side drivers of work package "timed" (see docs/AGENT_GUIDE.md) *)
+(* drv_timed.ml -- model-side drivers of work package "timed": pool / bpool (C12, C13), hb (C14) *)
 open Model
 open Util
 
+let parse_op tok =
+  match String.index_opt tok ':' with
+  | None -> failwith "poolop token"
+  | Some i ->
+    let t = int_of_string (String.sub tok 0 i) in
+    let rest = String.sub tok (i + 1) (String.length tok - i - 1) in
+    let c = rest.[0] in
+    let n = if String.length rest > 1 then int_of_string (String.sub rest 1 (String.length rest - 1)) else 0 in
+    (t, c, n)
+
+let snap_str with_tbl st =
+  let (cnt, l) = pool_snapshot st in
+  let b = Buffer.create 32 in
+  Buffer.add_string b (Printf.sprintf "i%d" (int_of_n cnt));
+  List.iter (fun (c, t) ->
+      Buffer.add_string b (if c then ",C" else ",L");
+      if with_tbl then Buffer.add_string b (string_of_int (int_of_n t))) l;
+  Buffer.contents b
+
+let res_str r =
+  match r with
+  | QUnit -> "-" | QNone -> "-"
+  | QHit k -> Printf.sprintf "u%d" (int_of_nat k)
+  | QMiss -> "p"
+  | QNew k -> Printf.sprintf "n%d" (int_of_nat k)
+  | QGot k -> Printf.sprintf "s%d" (int_of_nat k)
+
+let drv_pool args =
+  match args with
+  | _i :: t :: m :: ops ->
+    let cfg = { c_timeout = z_of_int (int_of_string t); c_min = n_of_int (int_of_string m) } in
+    let st = ref pool_init in
+    let out = ref [] in
+    List.iter (fun tok ->
+        let (at, c, n) = parse_op tok in
+        let now = z_of_int at in
+        let ap o = let (s, r) = pool_step cfg now !st o in st := s; r in
+        let r =
+          match c with
+          | 'r' -> (match ap PAcq with QMiss -> ap PCreate | r -> r)
+          | 'a' -> ap PAcq
+          | 'c' -> ap PCreate
+          | 'd' -> ap (PDone (nat_of_int n))
+          | 'x' -> ap (PDie (nat_of_int n))
+          | 't' -> ap PTick
+          | _ -> QUnit in
+        out := (res_str r ^ "/" ^ snap_str true !st) :: !out) ops;
+    String.concat " " (List.rev !out) ^ Printf.sprintf " dials=%d" (int_of_n (!st).p_dials)
+  | _ -> "BADCASE"
+
+(* bare get needs its own result spelling (s<k> | none) *)
+let drv_bpool args =
+  match args with
+  | _i :: t :: m :: ops ->
+    let cfg = { c_timeout = z_of_int (int_of_string t); c_min = n_of_int (int_of_string m) } in
+    let st = ref pool_init in
+    let out = ref [] in
+    List.iter (fun tok ->
+        let (at, c, n) = parse_op tok in
+        let now = z_of_int at in
+        let ap o = let (s, r) = pool_step cfg now !st o in st := s; r in
+        let r =
+          match c with
+          | 'n' -> ignore (ap (PNew (n_of_int n))); "-"
+          | 'i' -> ignore (ap (PAdd (nat_of_int n))); "-"
+          | 'g' -> (match ap PGet with QGot k -> Printf.sprintf "s%d" (int_of_nat k) | _ -> "none")
+          | 'x' -> ignore (ap (PDie (nat_of_int n))); "-"
+          | 'e' -> ignore (ap PCleanup); "-"
+          | 't' -> ignore (ap PTick); "-"
+          | _ -> "-" in
+        out := (r ^ "/" ^ snap_str false !st) :: !out) ops;
+    String.concat " " (List.rev !out)
+  | _ -> "BADCASE"
+
+let drv_hb args =
+  match args with
+  | _mode :: i :: t :: h :: script ->
+    let sc = List.map (fun s -> if s = "x" then None else Some (z_of_int (int_of_string s))) script in
+    let st = hb_sim (z_of_int (int_of_string i)) (z_of_int (int_of_string t)) (z_of_int (int_of_string h)) sc in
+    let reqs = List.rev_map (fun z -> string_of_int (int_of_z z)) st.hb_sent in
+    let q = String.concat " " ("q" :: reqs) in
+    (match st.hb_closed with
+     | Some c -> q ^ " | c " ^ string_of_int (int_of_z c)
+     | None -> q ^ " | o")
+  | _ -> "BADCASE"
+
 let dispatch (drv : string) (args : string list) : string option =
-  ignore args;
   match drv with
+  | "pool" -> Some (drv_pool args)
+  | "poolreal" -> Some (drv_pool args)
+  | "bpool" -> Some (drv_bpool args)
+  | "hb" -> Some (drv_hb args)
   | _ -> None
